@@ -1,10 +1,14 @@
 //! simcheck — deterministic-simulation harness for assets_manager (see /verif/DESIGN.md).
 mod common;
+mod ledger;
 mod lin;
 mod orch;
 mod props;
 
 use common::*;
+
+#[global_allocator]
+static GLOBAL: ledger::Accounting = ledger::Accounting;
 
 fn arg(args: &[String], name: &str) -> Option<String> {
     args.iter().position(|a| a == name).and_then(|i| args.get(i + 1).cloned())
